@@ -237,7 +237,8 @@ def openDir (files : List Bytes) (filter : Option Bytes) : Except OpenErr Log :=
   if files.isEmpty then .error .noFiles
   else
     let acc := accepted filter files
-    if (acc.map (·.2)).eraseDups.length > 1 then .error .multiUid
+    -- `server_uids.len() > 1`: two accepted files with different server uids
+    if acc.any (fun a => acc.any fun b => a.2 != b.2) then .error .multiUid
     else
       match createIndex (acc.map (·.1)) with
       | .ok idx => .ok ⟨acc.map (·.1), idx⟩
